@@ -433,3 +433,34 @@ mod t {
         }
     }
 }
+
+
+/// Line indices at which a new element may be inserted without splitting a directive and its
+/// continuation lines (the first line of every element, and the end of the file).
+pub fn element_starts(text: &str) -> Vec<usize> {
+    let n = split_lines(text).len();
+    let (elems, _) = parse(text);
+    let mut v = vec![];
+    let mut next_text_line = 0usize;
+    for e in &elems {
+        match e {
+            Elem::Text(_) => {
+                v.push(next_text_line);
+                next_text_line += 1;
+            }
+            Elem::ErrLine(l) => {
+                v.push(*l);
+                next_text_line = *l + 1;
+            }
+            Elem::D(d) => {
+                v.push(d.line);
+                next_text_line = d.line + d.args.len();
+            }
+        }
+    }
+    v.push(n);
+    v.sort();
+    v.dedup();
+    v.retain(|i| *i <= n);
+    v
+}
